@@ -25,7 +25,13 @@ rs = bootstrap()
 # named user functions
 
 from datetime import datetime as _datetime, timedelta as _timedelta, timezone as _timezone     # noqa: E402
-_EPOCH = _datetime(2020, 1, 1)
+# The process runs in a local time zone WITH daylight saving (a POSIX rule: no tz database needed), and the naive timestamps
+# start the day before a change (2020-03-29 02:00 CET -> CEST): naive datetimes are what they say, not local time
+import os as _os                                                    # noqa: E402
+import time as _time                                                # noqa: E402
+_os.environ['TZ'] = 'CET-1CEST,M3.5.0,M10.5.0/3'
+_time.tzset()
+_EPOCH = _datetime(2020, 3, 28, 12, 0, 0)
 _EPOCH_UTC = _datetime(2020, 1, 1, tzinfo=_timezone.utc)
 
 
@@ -658,6 +664,7 @@ class Controlled:
 
     def __init__(self):
         self.observers = []
+        self.late = []          # subscriptions of the history that are disposed only AFTER the judged one has subscribed
 
         def on_subscribe(observer, scheduler=None):
             from rx.disposable import Disposable
@@ -783,7 +790,7 @@ def usable_prelude(prog, prelude):
     the source error of an aborted run - every later subscription only receives that event again.  A pipeline
     holding a tee_map is therefore only given the aborted runs that end without a terminal event."""
     if prelude and 'tee_map' in op_names(prog):
-        return [p for p in prelude if p[0] in ('dispose', 'peek')]
+        return [p for p in prelude if p[0] in ('dispose', 'peek')]      # (and no 'overlap': one ConnectableObservable, one connection)
     return prelude
 
 
@@ -802,7 +809,9 @@ def play_prelude(obs, src, items, prelude):
 
 def _play_prelude(obs, src, items, prelude, rxops):
     n_done = 0
-    for kind, k in prelude:
+    for step_no, (kind, k) in enumerate(prelude):
+        if kind == 'overlap' and step_no != len(prelude) - 1:
+            kind = 'dispose'        # (two live subscriptions must not both receive items: only the last step may overlap)
         k = max(0, min(k, len(items)))
         seen = [0]
 
@@ -821,6 +830,10 @@ def _play_prelude(obs, src, items, prelude, rxops):
                 src.error(Boom('the source failed after %d items' % k))
             elif kind == 'dispose':
                 pass
+            elif kind == 'overlap':
+                # a consumer swap: the new subscription is made first, the old one disposed right after (no item in between)
+                src.late.append(d)
+                d = None
             elif kind == 'peek':
                 pass            # (a peek that was not satisfied is disposed like any other: it never sees a completion)
             elif kind == 'consumer_raise':
@@ -841,6 +854,7 @@ def drive(obs, src, items, snap):
     """The judged subscription on a Controlled source."""
     try:
         obs.subscribe(on_next=snap.on_next, on_error=snap.on_error, on_completed=snap.on_completed)
+        release_late(src)
         for x in items:
             src.push(x)
         src.complete()
@@ -849,6 +863,15 @@ def drive(obs, src, items, snap):
             snap.err = e
             snap.raised = True
     return snap
+
+
+def release_late(src):
+    late, src.late = src.late, []
+    for d in late:
+        try:
+            d.dispose()
+        except Exception:           # noqa: BLE001 - the old subscription's own failure is not judged
+            pass
 
 
 def _into(snap, result):
@@ -958,6 +981,7 @@ def run_driven(prog, items, mode='mux', env=None, prelude=None):
         play_prelude(obs, subj, items, prelude)
         try:
             obs.subscribe(on_next=snap.on_next, on_error=snap.on_error, on_completed=snap.on_completed)
+            release_late(subj)
             for j, x in enumerate(items):
                 cursor[0] = j
                 subj.push(x)
